@@ -115,7 +115,16 @@ MonPatterns ==
     Pat2("causes", X12("", NoPred, "", NoPred), Dj(<<Ev("y", "", NoPred), Ev("x3", "", VEq(NumA("1")))>>)),
     Pat2("forbids", X12("", NoPred, "", VEq(NumA("1"))), Ev("y", "", NoPred)),
     Pat2("forbids", X12("X", NoPred, "", NoPred), Dj(<<Ev("y", "", NoPred), Ev("x3", "", VEq(NumA("1")))>>)) }
-MonShapes == {Prop(s, WithTime(p, tm)) : s \in MonScopes, p \in MonPatterns, tm \in MonTimes}
+\* an alternative of the split event on the SAME topic as the terminator, with another predicate
+MonSameTopic ==
+  {Prop(s, WithTime(p, tm)) :
+     s \in {Scope("until", NoPred, Ev("q", "", VEq(NumA("1")))), Scope("after_until", Ev("p", "P", NoPred), Ev("q", "", VEq(AV("P"))))},
+     p \in {Pat1("no", Dj(<<Ev("q", "", VEq(NumA("0"))), Ev("x2", "", NoPred)>>)),
+            Pat2("forbids", Ev("y", "Y", NoPred), Dj(<<Ev("q", "", VNeq(AV("Y"))), Ev("x2", "", NoPred)>>)),
+            Pat2("requires", Dj(<<Ev("x1", "", VEq(NumA("1"))), Ev("q", "", VEq(NumA("0")))>>), Ev("y", "", NoPred)),
+            Pat2("causes", Dj(<<Ev("q", "", VEq(NumA("0"))), Ev("x2", "", NoPred)>>), Ev("y", "", NoPred))},
+     tm \in MonTimes}
+MonShapes == {Prop(s, WithTime(p, tm)) : s \in MonScopes, p \in MonPatterns, tm \in MonTimes} \cup MonSameTopic
 
 \* references against message schemas (C04 / C17): a reference R in every position of a predicate
 SRefs == { Own("n"), Own("k"), Own("s"), Own("b"), Own("K"), Own("nope"),
@@ -143,7 +152,14 @@ SRepeat ==
           Bn("and", Bn("!=", r, Fld(VarR("@A"), "s")), Bn("=", Call("abs", r), NumA("1")))}
          : r \in {Own("s"), Own("n"), Own("b"), Fld(Own("m"), "t"), Fld(VarR("@A"), "s"), Fld(VarR("@A"), "n"),
                   Fld(Idx(Own("ms"), Own("k")), "t"), Idx(Own("xs"), NumA("0"))}}
+SBound == { Qn("forall", "j", Own("ms"), Bn(">", Fld(VarR("@j"), "n"), NumA("0"))),
+            Qn("forall", "j", Own("ms"), Bn(">", Fld(VarR("@j"), "nope"), NumA("0"))),
+            Qn("exists", "j", Own("mf"), Bn(">", Fld(VarR("@j"), "t"), NumA("0"))),
+            Qn("exists", "j", Fld(VarR("@A"), "ms"), Bn("=", Fld(Fld(VarR("@j"), "deep"), "z"), Own("n"))),
+            Qn("forall", "j", Own("ms"), Qn("exists", "i", Own("xs"), Bn("<", VarR("@i"), Fld(VarR("@j"), "n")))),
+            Qn("forall", "j", Own("ms"), Bn(">", Idx(Own("xs"), Fld(VarR("@j"), "n")), Fld(VarR("@j"), "t"))) }
 SchemaShapes ==
+  {Prop(Scope("after", Ev("t", "A", NoPred), NoPred), Pat1("no", Ev("u", "", Pr(c)))) : c \in SBound} \cup
   {Prop(Scope("after", Ev("t", "A", NoPred), NoPred), Pat1("no", Ev("u", "", Pr(c)))) : c \in SPreds \cup SRepeat}
   \cup {Prop(Scope("globally", NoPred, NoPred), Pat2("causes", Ev("t", "A", Pr(Bn(">", Own("n"), NumA("0")))), Ev("w", "", Pr(c)))) : c \in UNION {SCtx(r) : r \in {Own("n"), Own("q"), Fld(VarR("@A"), "n"), Fld(VarR("@A"), "q")}}}
 
